@@ -97,6 +97,11 @@ ExecObj(W, C, ty, f, sels) ==
 
 ExecField(W, C, ty, f, sel, sub) ==
    IF sel.name = "__typename" THEN SVal(ty)
+   ELSE IF ty = "Query" /\ sel.name = "node"
+   THEN \* the Relay entry point: the entity with that id, or null
+        LET idv == IF Has(sel.args, "id") THEN ResolveArg(sel.args["id"], C) ELSE Absent
+        IN IF idv # Absent /\ idv.t = "s" /\ Has(W.ents, idv.v)
+           THEN ExecObj(W, C, W.ents[idv.v].ty, W.ents[idv.v].f, sub) ELSE ZVal
    ELSE LET raw == f[sel.name]
             val == IF raw.t = "fn"
                    THEN LET key == FnKey(W.types[ty].fields[sel.name], sel, raw.args, C)
